@@ -308,6 +308,28 @@ def function_probes(run):
     return len(cases)
 
 
+def rate_probes(run):
+    """rates written as constant expressions rather than literals: the value is known statically"""
+    T = ('<?xml version="1.0" encoding="utf-8"?><nta><declaration>clock x; hybrid clock h; int i; const int R = 2; const int Z = 0; const int U = 1;</declaration><template><name>T</name>'
+         '<location id="id0"><label kind="invariant">%s</label></location><location id="id1"/><init ref="id0"/><transition><source ref="id0"/><target ref="id1"/></transition></template><system>system T;</system></nta>')
+    cases = [("x' == R", True), ("x' == -1", True), ("x' == 1 + 1", True), ("x' == R - 3", True), ("x' == Z", False), ("x' == U", False), ("x' == 1 - 1", False), ("x' == +1", False), ("x' == i", False), ("h' == R", False)]
+    j = vlib.Job()
+    for k, c in enumerate(cases):
+        j.case('rt%d' % k, fork=True).model('xml', T % c[0]).dump('errors').dump('supported').end()
+    rr = vlib.run_jobs(j)
+    for k, c in enumerate(cases):
+        r = rr['rt%d' % k]
+        if r['status'] != 'ok' or any(l.startswith('error') for l in r['cmds'][1][2]):
+            run.tie_broken('rate probe is not accepted', dict(case=c, status=r['status'], errors=[l for l in r['cmds'][1][2] if l.startswith('error')][:2]))
+            continue
+        sym = 'symbolic=1' in ' '.join(r['cmds'][2][2])
+        if c[1] and sym:
+            run.fail('the invariant %r sets the rate of a non-hybrid clock to a constant other than 0 and 1: symbolic analysis is reported as supported' % c[0], dict(case=c, xml=T % c[0]), shape='verdict:rate-constant-expression')
+        if not c[1] and not sym:
+            run.tie_broken('rate probe: a rate of 0 / 1 (or one that is not known statically) is reported as not symbolically analysable', dict(case=c))
+    return len(cases)
+
+
 def check(run):
     thorough = run.tier == 'thorough'
     rng = run.rng
@@ -394,7 +416,7 @@ def check(run):
             samples.append(dict(doc=doc_sx(d), verdict=real))
     if mism:
         run.tie_broken('FeatureChecker model vs implementation verdicts', mism[:6] + [dict(total=len(mism))])
-    nrp = reference_probes(run) + function_probes(run)
+    nrp = reference_probes(run) + function_probes(run) + rate_probes(run)
     run.cov['reference_parameter_probes'] = nrp
     run.cov.update(evaluations=len(docs), distinct_nontrivial=len(set(doc_sx(d) for d in docs)), traces_validated_against_impl=naccepted,
                    rule='targeted: every (operand fp/clock class)^2 x 6 relational operators x 6 positions (root, either conjunct, nested conjunct, under forall) as guard and as invariant; every rate constant x hybrid x 4 positions; hybrid rate x non-hybrid rate in one invariant (4 shapes); '
